@@ -265,6 +265,10 @@ StunValidationStatus stun_agent_validate (StunAgent *agent, StunMessage *msg,
         STUN_ATTRIBUTE_MESSAGE_INTEGRITY, &hlen);
 
     if (hash) {
+      /* Exactly 20 bytes are compared below: anything else cannot match */
+      if (hlen != 20)
+        return STUN_VALIDATION_UNAUTHORIZED;
+
       /* We must give the size from start to the end of the attribute
          because you might have a FINGERPRINT attribute after it... */
       if (agent->usage_flags & STUN_AGENT_USAGE_LONG_TERM_CREDENTIALS) {
